@@ -371,12 +371,23 @@ type caseObs struct {
 
 func runEngine(conf *cli.CliConfig, agg core.Aggregator, timeout time.Duration) string {
 	conf.Engine.Pools[0].Aggregator = agg
-	eng := engine.New(zap.NewNop(), nopMetrics(), conf.Engine)
+	return runEngineWith(engine.New(zap.NewNop(), nopMetrics(), conf.Engine), timeout)
+}
+
+func runEngineWith(eng *engine.Engine, timeout time.Duration) string {
 	ctx, cancel := context.WithTimeout(context.Background(), timeout)
 	defer cancel()
 	err := eng.Run(ctx)
 	cancel()
-	eng.Wait()
+	waited := make(chan struct{})
+	go func() { eng.Wait(); close(waited) }()
+	select {
+	case <-waited:
+	case <-time.After(20 * time.Second):
+		if err == nil {
+			return "engine.Wait did not return within 20s after a nil Run result"
+		}
+	}
 	if err != nil {
 		return err.Error()
 	}
